@@ -48,6 +48,7 @@ def cpcLabel : CPc → String
   | .clrAcq => "lock.acquire" | .clrGet => "queue.get_nowait" | .clrDone _ => "queue.task_done"
   | .clrJoin => "queue.join" | .clrRel => "lock.release"
   | .joinQ => "queue.join" | .jtAcq => "cond.acquire" | .jtWait _ => "cond.wait" | .futWait _ => "fut.wait"
+  | .futPoll _ => "fut.is_set"
 
 def showRet : Ret → String
   | .none => "-" | .unit => "N" | .bool true => "T" | .bool false => "F" | .fut => "fut" | .full => "Full"
@@ -91,6 +92,12 @@ def parseOp? (label : String) (extra : List String) : Option (Op × Bool) :=
   | "call.enqueue" => plain .callEnqueue
   | "call.wait" => match extra with
     | [t] => t.toNat?.map fun n => (Op.callWait n, false)
+    | _ => none
+  | "call.done" => match extra with
+    | [t] => t.toNat?.map fun n => (Op.callDone n, false)
+    | _ => none
+  | "fut.is_set" => match extra with
+    | [] => some (.futIsSet, false)
     | _ => none
   | "event.is_set" => plain .eventIsSet
   | "event.set" => plain .eventSet
